@@ -299,9 +299,33 @@ func (w *World) Explore(hs []*Harness, nworkers int) *RunResult {
 	}
 	var mu sync.Mutex
 	cond := sync.NewCond(&mu)
-	var stack []workItem
-	for i := len(hs) - 1; i >= 0; i-- {
-		stack = append(stack, workItem{hs[i], nil, nil})
+	// one LIFO stack per harness, served round-robin: a harness with very many paths cannot
+	// starve the others (whose time budget runs from their first path)
+	stacks := map[string][]workItem{}
+	order := make([]string, 0, len(hs))
+	for _, h := range hs {
+		stacks[h.Name] = []workItem{{h, nil, nil}}
+		order = append(order, h.Name)
+	}
+	rrNext := 0
+	pending := func() int {
+		n := 0
+		for _, st := range stacks {
+			n += len(st)
+		}
+		return n
+	}
+	pop := func() workItem {
+		for k := 0; k < len(order); k++ {
+			name := order[(rrNext+k)%len(order)]
+			if st := stacks[name]; len(st) > 0 {
+				it := st[len(st)-1]
+				stacks[name] = st[:len(st)-1]
+				rrNext = (rrNext + k + 1) % len(order)
+				return it
+			}
+		}
+		panic("pop on empty work list")
 	}
 	active := 0
 	wit := &witnessBook{got: map[string]int{}, limit: w.witnesses}
@@ -333,16 +357,15 @@ func (w *World) Explore(hs []*Harness, nworkers int) *RunResult {
 			}()
 			for {
 				mu.Lock()
-				for len(stack) == 0 && active > 0 {
+				for pending() == 0 && active > 0 {
 					cond.Wait()
 				}
-				if len(stack) == 0 && active == 0 {
+				if pending() == 0 && active == 0 {
 					mu.Unlock()
 					cond.Broadcast()
 					return
 				}
-				it := stack[len(stack)-1]
-				stack = stack[:len(stack)-1]
+				it := pop()
 				hr := results[it.h.Name]
 				if _, ok := started[it.h.Name]; !ok {
 					started[it.h.Name] = time.Now()
@@ -414,7 +437,7 @@ func (w *World) Explore(hs []*Harness, nworkers int) *RunResult {
 					covers[it.h.Name][k] = true
 				}
 				for _, p := range pr.Pending {
-					stack = append(stack, workItem{it.h, p.Log, p.Model})
+					stacks[it.h.Name] = append(stacks[it.h.Name], workItem{it.h, p.Log, p.Model})
 				}
 				hr.WallS = time.Since(started[it.h.Name]).Seconds()
 				mu.Unlock()
